@@ -545,8 +545,9 @@ def convert_var_to_effective_lindbladian(
     size = (dim ** 2 - 1, dim ** 2) if on_para_eq_constraint else (dim ** 2, dim ** 2)
     reshaped = var.reshape(size)
 
+    # trace preservation of a generator means a vanishing first row (not the first row e0 of a gate)
     hs = (
-        np.insert(reshaped, 0, np.eye(1, dim ** 2), axis=0)
+        np.insert(reshaped, 0, np.zeros((1, dim ** 2)), axis=0)
         if on_para_eq_constraint
         else reshaped
     )
